@@ -30,7 +30,7 @@ os.makedirs(W + '/harness/.cargo', exist_ok=True)
 open(W + '/harness/.cargo/config.toml', 'w').write(
     '[net]\noffline = true\n[build]\nrustflags = ["--cfg", "jtroo_kanata_verif", "-C", "instrument-coverage"]\n')
 r = subprocess.run(['cargo', '+nightly', 'build', '--offline'], cwd=W + '/harness', capture_output=True, text=True,
-                   env=dict(os.environ, KV_REPO=a.repo))
+                   env=dict(os.environ, KV_REPO=a.repo, LLVM_PROFILE_FILE=W + '/prof/build-%p.profraw'))
 if r.returncode != 0:
     sys.exit('instrumented build failed:\n' + r.stderr[-3000:])
 K = W + '/harness/target/debug/kvharness'
